@@ -74,7 +74,8 @@ ASSUMPTIONS = [
     "edge length, ||M|| = norm of the drawing transform): Poincare finite 1e-9(1+X); half-plane "
     "finite (1e-7(1+X)+1.2e-6(1+X^2)/min(L,1)) rho, rho = ratio of the Minkowski norms of the "
     "two representatives handed to the library, read from obj.proj_data for conditioning only "
-    "(the library derives circles from ideal endpoints with sqrt(eps) rho height noise); objects with ideal points 5e-7(1+X^2)||M||; "
+    "(the library derives circles from ideal endpoints with sqrt(eps) rho height noise); "
+    "objects with ideal points 5e-7(1+X^2)||M||; "
     "horocircles 1e-5(1+X)||M|| (Poincare), 1e-8(1+X^2)||M|| (half-plane); Arc centre / "
     "radius additionally x (1 + r/L); each >= 25 x the worst residual in 30-40 thousand "
     "random objects",
@@ -448,16 +449,26 @@ def pos_tol(model, X, length=None, ideal_norm=None, rho=1.0):
 
 
 def mink_ratio(rows):
-    """rho for consecutive pairs of representative rows (.., n, 3): ratio >= 1 of their
-    Minkowski norms; 1 when one of the two is (numerically) lightlike"""
+    """rho >= 1 for consecutive pairs (v, w) of representative rows (.., n, 3): the spread
+    sqrt(max/min) of |<v,v>|, |<w,w>|, |<v,w>| (lightlike rows contribute no square); for
+    two interior points close to each other this is the ratio of their Minkowski norms"""
     rows = np.asarray(rows, dtype=float)
-    nn = np.sqrt(np.abs(-rows[..., 0] ** 2 + np.sum(rows[..., 1:] ** 2, axis=-1)))
-    eu = np.sqrt(np.sum(rows ** 2, axis=-1))
-    a, b = nn, np.roll(nn, -1, axis=-1)
-    light = (a < 1e-6 * eu) | (b < 1e-6 * np.roll(eu, -1, axis=-1))
+    nxt = np.roll(rows, -1, axis=-2)
+
+    def mk(u, v):
+        return -u[..., 0] * v[..., 0] + np.sum(u[..., 1:] * v[..., 1:], axis=-1)
+
+    def eu(u):
+        return np.sum(u * u, axis=-1)
+
+    g11, g22, g12 = np.abs(mk(rows, rows)), np.abs(mk(nxt, nxt)), np.abs(mk(rows, nxt))
+    l1 = g11 < 1e-10 * eu(rows)
+    l2 = g22 < 1e-10 * eu(nxt)
+    hi = np.maximum(g12, np.maximum(np.where(l1, 0.0, g11), np.where(l2, 0.0, g22)))
+    lo = np.minimum(g12, np.minimum(np.where(l1, np.inf, g11), np.where(l2, np.inf, g22)))
     with np.errstate(all="ignore"):
-        rho = np.maximum(a, b) / np.minimum(a, b)
-    return np.where(light | ~np.isfinite(rho), 1.0, rho)
+        rho = np.sqrt(hi / lo)
+    return np.where(np.isfinite(rho), np.maximum(rho, 1.0), 1.0)
 
 
 def horo_tol(model, X, normM):
